@@ -150,6 +150,16 @@ def check_fn(ctx, prog, f, kind, cfg):
                       detail="facts: " + fmt_facts(f, G.facts_at(b)))
         else:
             full = Z.le(Nn, size0, 0) or Z.eq0(Nn)
+            if not full:
+                # `N == 0 || size >= N` merges in one block: decide on each incoming edge instead
+                from .c07 import _none_edges
+
+                edges = _none_edges(f, b)
+                full = bool(edges)
+                for (p_, label) in edges:
+                    Ze = guards.Zone(f, set(G.facts_at(p_)) | set(G.edge_atoms(p_, label)), [size0, Nn, zero])
+                    if not (Ze.le(Nn, size0, 0) or Ze.eq0(Nn)):
+                        full = False
             ctx.check(full, "FULL1", f.short, site, short_loc(f, b, i),
                       "a `%s` return is reachable without `size >= N` or `N == 0`: an element is refused or "
                       "displaced although there is room" % variant,
